@@ -72,7 +72,8 @@ package context
 //@   loop 0 invariant p == old(p) && heldr(p.lock) && 0 <= i
 //@   loop 0 invariant [C20.watch.inv] chdone[p.closed] || (i <= len(p.pool) && (forall j :: 0 <= j && j < i ==> chdone[p.pool[j]]))
 //@   at before call RUnlock#1 label W
-//@   at select#0 assert [C20.watch.waits] at(W, i < len(p.pool)) && arg0 == at(W, p.pool[i]) && arg1 == p.closed
+// (stated over the set of channels the select waits on, not over the order of its cases)
+//@   at select#0 assert [C20.watch.waits] at(W, i < len(p.pool)) && selhas(at(W, p.pool[i])) && selhas(p.closed) && (forall c :: selhas(c) ==> (c == at(W, p.pool[i]) || c == p.closed))
 //@   at before call RUnlock#0 label E
 //@   at every before call CancelFunc assert [C20.watch.notearly] chdone[p.closed] || (forall j :: 0 <= j && j < len(at(E, p.pool)) ==> chdone[at(E, p.pool[j])])
 //@   at every before call CancelFunc assert [C20.watch.unlocked] !held(p.lock)
